@@ -108,7 +108,7 @@ def summarize(sc):
 
 def write_replay(pid, payload):
     d = OUT / "replays"
-    d.mkdir(exist_ok=True)
+    d.mkdir(parents=True, exist_ok=True)
     blob = json.dumps(payload, sort_keys=True, default=str)
     h = hashlib.sha1(blob.encode()).hexdigest()[:12]
     path = d / f"{pid}-{h}.json"
